@@ -97,11 +97,9 @@ func (e *fnEnc) instr(in ssa.Instruction) {
 	case *ssa.Lookup:
 		e.lookup(i)
 	case *ssa.MakeChan:
-		n := e.opaque(i)
-		e.vc.assume("(> " + n + " 0)")
+		e.freshRef(i)
 	case *ssa.MakeClosure:
-		n := e.opaque(i)
-		e.vc.assume("(> " + n + " 0)")
+		e.freshRef(i)
 		e.closures[i] = i.Fn.(*ssa.Function)
 	case *ssa.MakeInterface:
 		e.makeInterface(i)
@@ -140,15 +138,30 @@ func (e *fnEnc) instr(in ssa.Instruction) {
 	}
 }
 
+var clockKey = HeapKey{Name: "CLOCK", Sort: "Int"}
+
+// freshRefRaw allocates a reference strictly newer than every value that exists so far (allocation clock).
+func (e *fnEnc) freshRefRaw(hint string) string {
+	n := e.vc.fresh(hint, "Int")
+	e.vc.assume(fmt.Sprintf("(> %s %s)", n, e.heap(clockKey)))
+	e.cur[clockKey.Name] = n
+	return n
+}
+
 func (e *fnEnc) freshRef(v ssa.Value) string {
 	n := e.vc.decl(e.name(v), "Int")
 	e.val[v] = n
-	e.vc.assume("(> " + n + " 0)")
-	for _, a := range e.allocs {
-		e.vc.assume(fmt.Sprintf("(not (= %s %s))", n, a))
-	}
-	e.allocs = append(e.allocs, n)
+	e.vc.assume(fmt.Sprintf("(> %s %s)", n, e.heap(clockKey)))
+	e.cur[clockKey.Name] = n
 	return n
+}
+
+// bumpClock: unknown code may have allocated.
+func (e *fnEnc) bumpClock() {
+	old := e.heap(clockKey)
+	n := e.vc.fresh("clock", "Int")
+	e.vc.assume(fmt.Sprintf("(>= %s %s)", n, old))
+	e.cur[clockKey.Name] = n
 }
 
 func (e *fnEnc) alloc(i *ssa.Alloc) {
@@ -578,12 +591,7 @@ func (e *fnEnc) convert(i *ssa.Convert) {
 		if sl, ok := to.Underlying().(*types.Slice); ok {
 			if b, _ := intBits(sl.Elem()); b == 8 {
 				ek := e.S().ElemKey(sl.Elem())
-				n := e.vc.fresh("bytesref", "Int")
-				e.vc.assume("(> " + n + " 0)")
-				for _, a := range e.allocs {
-					e.vc.assume(fmt.Sprintf("(not (= %s %s))", n, a))
-				}
-				e.allocs = append(e.allocs, n)
+				n := e.freshRefRaw("bytesref")
 				e.setHeap(ek, fmt.Sprintf("(store %s %s (s-base %s))", e.heap(ek), n, x))
 				e.setVal(i, fmt.Sprintf("(mk-slc %s (s-off %s) (s-len %s) (s-len %s))", n, x, x, x))
 				return
@@ -810,12 +818,7 @@ func (e *fnEnc) typeAssert(i *ssa.TypeAssert) {
 func (e *fnEnc) makeSlice(i *ssa.MakeSlice) {
 	l, c := e.term(i.Len), e.term(i.Cap)
 	e.safety("bounds", "makeslice", fmt.Sprintf("(and (>= %s 0) (<= %s %s))", l, l, c), i.Pos(), "makeslice: len out of range")
-	r := e.vc.fresh("mkslice", "Int")
-	e.vc.assume("(> " + r + " 0)")
-	for _, a := range e.allocs {
-		e.vc.assume(fmt.Sprintf("(not (= %s %s))", r, a))
-	}
-	e.allocs = append(e.allocs, r)
+	r := e.freshRefRaw("mkslice")
 	st := i.Type().Underlying().(*types.Slice)
 	ek := e.S().ElemKey(st.Elem())
 	es := e.S().SortOf(st.Elem())
@@ -865,8 +868,7 @@ func (e *fnEnc) slice(i *ssa.Slice) {
 		} else {
 			arr = e.loadPtr(x, xt.Elem())
 		}
-		r := e.vc.fresh("arrslice", "Int")
-		e.vc.assume("(> " + r + " 0)")
+		r := e.freshRefRaw("arrslice")
 		ek := e.S().ElemKey(at.Elem())
 		e.setHeap(ek, fmt.Sprintf("(store %s %s %s)", e.heap(ek), r, arr))
 		e.setVal(i, fmt.Sprintf("(mk-slc %s %s (- %s %s) (- %d %s))", r, lo, hi, lo, n, lo))
